@@ -182,17 +182,46 @@ type sut struct {
 	api      traits.ElectricApiClient
 	settings electricpb.MemorySettingsApiClient
 	stray    []string
+	// how the initial modes were handed to NewModel: the option list in order ("WithInitialMode(b,a)", ...)
+	built []string
 }
 
 func newSut(seed int64, initial []hmode) *sut {
 	s := &sut{clk: &fakeClock{t: 1000}}
 	opts := []resource.Option{electricpb.WithClock(s.clk), electricpb.WithRNG(rand.New(rand.NewSource(seed)))}
 	if len(initial) > 0 {
+		// The initial modes are handed over in a seed-dependent order, split over 1-3 uses of
+		// WithInitialMode placed before/after the other options: by C19_config_initial_mode_additive and
+		// C19_config_state the constructed state is init_state (initial in id order) for all of them.
+		pr := rand.New(rand.NewSource(seed ^ 0x5eed))
 		pbs := make([]*traits.ElectricMode, len(initial))
-		for i, m := range initial {
-			pbs[i] = m.pb()
+		for i, j := range pr.Perm(len(initial)) {
+			pbs[i] = initial[j].pb()
 		}
-		opts = append(opts, electricpb.WithInitialMode(pbs...))
+		s.built = []string{"WithClock", "WithRNG"}
+		for len(pbs) > 0 {
+			n := 1 + pr.Intn(len(pbs))
+			use := electricpb.WithInitialMode(pbs[:n]...)
+			d := "WithInitialMode("
+			for i, p := range pbs[:n] {
+				if i > 0 {
+					d += ","
+				}
+				d += p.Id
+				if p.Normal {
+					d += ":normal"
+				}
+			}
+			d += ")"
+			if pr.Intn(2) == 0 {
+				opts = append(opts, use)
+				s.built = append(s.built, d)
+			} else {
+				opts = append([]resource.Option{use}, opts...)
+				s.built = append([]string{d}, s.built...)
+			}
+			pbs = pbs[n:]
+		}
 	}
 	s.model = electricpb.NewModel(opts...)
 	srv := electricpb.NewModelServer(s.model)
@@ -390,6 +419,7 @@ func (g *gen) runSeq(tag string, seed int64, initial []hmode, ops []hop, nows []
 		o0    hobs
 		steps []hstep
 		stray []string
+		built []string
 	}
 	done := make(chan result, 1)
 	go func() {
@@ -402,6 +432,7 @@ func (g *gen) runSeq(tag string, seed int64, initial []hmode, ops []hop, nows []
 			res.steps = append(res.steps, hstep{Now: nows[i], Op: o, Obs: s.observe(code, ret)})
 		}
 		res.stray = s.stray
+		res.built = s.built
 		done <- res
 	}()
 	var res result
@@ -436,7 +467,7 @@ func (g *gen) runSeq(tag string, seed int64, initial []hmode, ops []hop, nows []
 	coq := vcoq.App("KSeq", coqModes(initial), res.o0.coq(), vcoq.List(it))
 	g.o.Add(vcoq.Case{
 		Coq:        coq,
-		JSON:       map[string]any{"kind": "seq", "rng_seed": seed, "initial": initial, "observed_initially": res.o0, "steps": res.steps},
+		JSON:       map[string]any{"kind": "seq", "rng_seed": seed, "initial": initial, "new_model_options": res.built, "observed_initially": res.o0, "steps": res.steps},
 		Key:        coq,
 		NonTrivial: nontrivial,
 		Tags:       tags,
@@ -547,7 +578,7 @@ func (g *gen) runStream(seed int64, initial []hmode, ops []hop, nows []int64) {
 	coq := vcoq.App("KStream", coqModes(initial), vcoq.List(steps), vcoq.List(ms), coqModes(aev))
 	g.o.Add(vcoq.Case{
 		Coq:        coq,
-		JSON:       map[string]any{"kind": "stream", "rng_seed": seed, "initial": initial, "steps": jsteps, "modes_events": mev, "active_events": aev},
+		JSON:       map[string]any{"kind": "stream", "rng_seed": seed, "initial": initial, "new_model_options": s.built, "steps": jsteps, "modes_events": mev, "active_events": aev},
 		Key:        coq,
 		NonTrivial: len(mev) > len(initial) || len(aev) > 1,
 		Tags:       tags,
@@ -721,7 +752,7 @@ func (g *gen) runConc(seed int64, nthreads, perThread int) {
 	coq := vcoq.App("KConc", coqModes(initial), vcoq.Z(2000), vcoq.List(th), fin.coq())
 	g.o.Add(vcoq.Case{
 		Coq:        coq,
-		JSON:       map[string]any{"kind": "concurrent", "rng_seed": seed, "initial": initial, "now": 2000, "threads": results, "final": fin},
+		JSON:       map[string]any{"kind": "concurrent", "rng_seed": seed, "initial": initial, "new_model_options": s.built, "now": 2000, "threads": results, "final": fin},
 		Key:        coq,
 		NonTrivial: true,
 		Tags:       tags,
@@ -832,15 +863,18 @@ func (g *gen) races(iter int) {
 
 func genC19(o *vcoq.Out, r *vcoq.Rand, tier string) error {
 	g := &gen{o: o, r: r}
-	o.Header = "From SC Require Import Base.Prelude Electric.Model Electric.C19Judge."
+	o.Header = "From SC Require Import Base.Prelude Electric.Model Electric.Config Electric.UpdateOpts Electric.C19Judge."
 	o.CaseType = "c19case"
 	o.Judge = "judge"
 	o.Shard = 200
-	nRandom, maxLen, exLen, nConc, nStream, nRace := 1500, 14, 3, 150, 500, 2500
+	nRandom, maxLen, exLen, nConc, nStream, nRace, nCfg, nOpt := 1500, 14, 3, 150, 500, 2500, 500, 600
 	if tier == "thorough" {
-		nRandom, maxLen, exLen, nConc, nStream, nRace = 20000, 24, 4, 2500, 8000, 40000
+		nRandom, maxLen, exLen, nConc, nStream, nRace, nCfg, nOpt = 20000, 24, 4, 2500, 8000, 40000, 10000, 10000
 	}
 	g.exhaustive(exLen)
+	g.exhaustiveCfg()
+	g.randomCfgs(nCfg, maxLen)
+	g.updateOptCases(nOpt)
 	for i := 0; i < nRandom; i++ {
 		n := r.Range(1, maxLen)
 		ops := make([]hop, n)
@@ -870,6 +904,6 @@ func genC19(o *vcoq.Out, r *vcoq.Rand, tier string) error {
 		}
 		g.runConc(int64(r.Intn(1<<30)), nt, per)
 	}
-	o.Rule = fmt.Sprintf("bounded-exhaustive: all %d-operation sequences over a 16-operation alphabet on ids {a,b} (add/create/update with and without masks/delete with and without allow-missing/set-active/change/clear, Model API and servers) from an empty model; random: %d sequences of 1-%d operations over ids {a,b,c,d,zz,\"\"} with 0-3 initial modes, random masks, fake clock advancing 0-50 ns per step, one third Model API only, one third through the servers, one third mixed; streams: %d random sequences with PullModes/PullActiveMode (back-pressure) subscribed first, all events compared; concurrent: %d mixes of 2-4 goroutines x 3-5 operations and 7 race scenarios (check-then-act pairs started together) x %d runs each (distinct outcomes emitted once), %d forced schedules (one call parked at a yield point inside its body, the other started meanwhile and observed to block or to run), results + quiescent state checked for linearizability (program order + real-time order) against the model. Non-trivial: at least one operation succeeded. Distinct by the full history term.", exLen, nRandom, maxLen, nStream, nConc, nRace, len(forcedScenarios()))
+	o.Rule = fmt.Sprintf("update options: %d single Model.UpdateMode calls (KOpt) on 0-3 initial modes with a random body over ids {a,b,c,d,x,\"\"}, update mask nil/empty/1-3 paths, WithCreateIfAbsent or not, WithResetPaths none/0-3 paths (incl. id), options in random order, store observed key by key before and after; configurations: NewModel option lists as part of the case (KCfg) - modes a,b,c in all 6 orders x normal flag on none/each x all 4 splits into consecutive WithInitialMode uses x 8 probes through every door to the normal flag / ClearActiveMode (768), and %d random option lists (0-4 modes in random order spread over 0-3 WithInitialMode uses incl. empty ones, WithModeOption(WithInitialRecord) and plain resource.WithInitialRecord; at most one normal mode anywhere; electricpb.WithClock 0-2 times among three fake clocks with distinct readings, resource.WithClock, WithRNG, 0-2 initial active values (blank / configured mode / unknown id) via both constructors; all shuffled; 1 in 20 with a repeated or empty id = NewModel panics) followed by 1-%d random operations; the other kinds hand their initial modes over in a seed-dependent order split over 1-3 WithInitialMode uses; bounded-exhaustive: all %d-operation sequences over a 16-operation alphabet on ids {a,b} (add/create/update with and without masks/delete with and without allow-missing/set-active/change/clear, Model API and servers) from an empty model; random: %d sequences of 1-%d operations over ids {a,b,c,d,zz,\"\"} with 0-3 initial modes, random masks, fake clock advancing 0-50 ns per step, one third Model API only, one third through the servers, one third mixed; streams: %d random sequences with PullModes/PullActiveMode (back-pressure) subscribed first, all events compared; concurrent: %d mixes of 2-4 goroutines x 3-5 operations and 7 race scenarios (check-then-act pairs started together) x %d runs each (distinct outcomes emitted once), %d forced schedules (one call parked at a yield point inside its body, the other started meanwhile and observed to block or to run), results + quiescent state checked for linearizability (program order + real-time order) against the model. Non-trivial: at least one operation succeeded. Distinct by the full history term.", nOpt, nCfg, maxLen, exLen, nRandom, maxLen, nStream, nConc, nRace, len(forcedScenarios()))
 	return nil
 }
